@@ -12,6 +12,12 @@ with the same operations in lock-step.
   obtained through `keys()` / `[]`, and `in`) of the record must equal those of the plain file.
 * Correspondence: real IH5 outcome + dump == model `W.step` + `view`; real h5py outcome + dump ==
   model `Spec.step` + tree. Raw per-container content is compared as a diagnostic only.
+* Refused values (`setbad` / `sattrbad`): set-dataset / set-attr with a value that h5py itself refuses
+  (`BAD`). Such a value is no element of the models' value type, the call is an error without effect
+  by definition of the reference ("the tree that results from the user's SUCCESSFUL operations"): both
+  real sides must raise and both complete dumps must stay as they were (same lock-step oracle, the
+  failure classes TypeError / ValueError / UnicodeEncodeError … all map to `err`); the driver answers
+  `err err` and keeps both model states (lean/Drv/Ov.lean).
 """
 import os
 import shutil
@@ -128,6 +134,60 @@ def enc(x):
     return "?" + type(x).__name__
 
 
+# Values that h5py (3.x) refuses for `group[name] = v` AND for `node.attrs[key] = v`, by the stage at which it does:
+#   stage 1 (conversion to a numpy array / HDF5 type, before anything is created in the file)
+#     Bobj object()            Bdict {"a": 1}          Bset {1, 2}              Bfunc a function
+#     Bnone None               Bragged [[1, 2], [3]]   Bmixed [1, "a"]          Bobjarr np.array([object()], dtype=object)
+#     Bdt64 np.datetime64      Bustr np.array(["a", "bc"]) (dtype <U2)          Bbig 2**70 (no HDF5 integer type)
+#     Bgen a generator         Bstructobj structured array with an object field
+#   stage 2 (while the data are written, after the HDF5 object has been created)
+#     Bnul "a\x00b" (variable-length strings cannot hold NUL)       Bsur "\udc80" (lone surrogate, not encodable)
+# Stage-2 values are used for datasets only: `group[name] = v` writes into an anonymous dataset and links it afterwards
+# (nothing stays behind), but `AttributeManager.create` of h5py 3.x deletes an existing attribute of that name BEFORE it
+# writes, i.e. the plain h5py.File is not free of effects there itself and gives no reference behaviour (see run()).
+BAD_EARLY = ["Bobj", "Bdict", "Bset", "Bfunc", "Bnone", "Bragged", "Bmixed", "Bobjarr", "Bdt64", "Bustr", "Bbig", "Bgen", "Bstructobj"]
+BAD_LATE = ["Bnul", "Bsur"]
+BAD_DS = BAD_EARLY + BAD_LATE
+BAD_ATTR = list(BAD_EARLY)
+
+
+def bad_val(tok):
+    """token of a refused value -> a fresh Python value (built in the worker; never stored in a case)"""
+    import numpy as np
+
+    if tok == "Bobj":
+        return object()
+    if tok == "Bdict":
+        return {"a": 1}
+    if tok == "Bset":
+        return {1, 2}
+    if tok == "Bfunc":
+        return lambda: None
+    if tok == "Bnone":
+        return None
+    if tok == "Bragged":
+        return [[1, 2], [3]]
+    if tok == "Bmixed":
+        return [1, "a"]
+    if tok == "Bobjarr":
+        return np.array([object()], dtype=object)
+    if tok == "Bdt64":
+        return np.datetime64("2020-01-01")
+    if tok == "Bustr":
+        return np.array(["a", "bc"])
+    if tok == "Bbig":
+        return 2 ** 70
+    if tok == "Bgen":
+        return (x for x in (1, 2))
+    if tok == "Bstructobj":
+        return np.array([(1, None)], dtype=[("a", "i4"), ("b", "O")])
+    if tok == "Bnul":
+        return "a\x00b"
+    if tok == "Bsur":
+        return "\udc80"
+    raise ValueError(tok)
+
+
 def parent(path):
     segs = path.strip("/").split("/")
     return "/" + "/".join(segs[:-1])
@@ -218,11 +278,12 @@ def apply_op(f, href, op):
         par = parent(op[1])
         if par == "/" or par not in href or not isinstance(href[par], h5py.Group):
             rel = False
-    if k == "set":
+    if k in ("set", "setbad"):
+        val = dec(op[2]) if k == "set" else bad_val(op[2])
         if rel:
-            f[parent(op[1])][op[1].rsplit("/", 1)[1]] = dec(op[2])
+            f[parent(op[1])][op[1].rsplit("/", 1)[1]] = val
         else:
-            f[op[1]] = dec(op[2])
+            f[op[1]] = val
     elif k == "grp":
         if rel:
             f[parent(op[1])].create_group(op[1].rsplit("/", 1)[1])
@@ -233,8 +294,8 @@ def apply_op(f, href, op):
             del f[parent(op[1])][op[1].rsplit("/", 1)[1]]
         else:
             del f[op[1]]
-    elif k == "sattr":
-        f[op[1]].attrs[op[2]] = dec(op[3])
+    elif k in ("sattr", "sattrbad"):
+        f[op[1]].attrs[op[2]] = dec(op[3]) if k == "sattr" else bad_val(op[3])
     elif k == "dattr":
         del f[op[1]].attrs[op[2]]
     elif k == "copy":
@@ -284,6 +345,36 @@ class _Tags:
         self.first = {}  # path -> container index of its first creation
         self.tags = set()
         self.boundary = set()  # the paths present at the last boundary
+        self.aset = {}  # (path, key) -> container index of the last successful set-attr (attribute present)
+        self.adel = {}  # (path, key) -> container index of the last successful del-attr (attribute absent since)
+
+    def refused_state(self, op, before):
+        """where a refused value is aimed at (statistics: every class has to occur)"""
+        c, p = self.cont, op[1]
+        if op[0] == "setbad":
+            if p in before:
+                return "exists-in-newest-container" if self.fresh(p) else "exists-in-older-container-only"
+            q = parent(p)
+            while q != "/":
+                if before.get(q, "G") != "G":
+                    return "below-dataset"
+                q = parent(q)
+            if p in self.deleted:
+                old = self.first.get(p, c) < c
+                return ("deleted-in-this-patch" + (":stored-in-older-container" if old else "")) if self.deleted[p] == c else "deleted-in-older-patch"
+            if parent(p) != "/" and parent(p) not in before:
+                if any(is_pre(d, p) for d in self.deleted):
+                    return "below-deleted-parent"
+                return "below-missing-parent"
+            return "never-existed" if p not in self.first else "gone-with-ancestor"
+        if p not in before:
+            return "attr:node-missing"
+        kk = (p, op[2])
+        if kk in self.aset:
+            return "attr:exists-in-newest-container" if self.aset[kk] == c else "attr:exists-in-older-container-only"
+        if kk in self.adel:
+            return "attr:deleted-in-this-patch" if self.adel[kk] == c else "attr:deleted-in-older-patch"
+        return "attr:never-existed"
 
     def fresh(self, p):
         """p came into being in the current container (explicitly or as an intermediate group)"""
@@ -298,6 +389,12 @@ class _Tags:
                 self.tags.add("containers>=3")
             return
         c = self.cont
+        if k in ("setbad", "sattrbad"):
+            self.tags.add("refused-value:" + self.refused_state(op, before))
+            self.tags.add("refused-class:" + ("write-stage" if op[-1] in BAD_LATE or op[2] in BAD_LATE else "conversion-stage"))
+            if ok:
+                self.tags.add("refused-value-accepted(!)")
+            return
         if not ok:
             self.tags.add("err:" + k)
             if k in ("copy", "move") and op[2] in before and op[2] in self.boundary and self.made.get(op[2], -1) != c and op[1] in before and self.fresh(op[1]):
@@ -334,6 +431,16 @@ class _Tags:
                 touches = (is_pre(p, tgt) and p != tgt) or (p == tgt and k in ("sattr", "dattr"))
                 if touches and kc < c and self.first.get(p, c) < kc:
                     self.tags.add("replace-then-touch-3-containers")
+        if k == "sattr":
+            self.aset[(op[1], op[2])] = c
+            self.adel.pop((op[1], op[2]), None)
+        if k == "dattr":
+            self.adel[(op[1], op[2])] = c
+            self.aset.pop((op[1], op[2]), None)
+        if k in ("copy", "move"):  # attributes travel with the nodes; the bookkeeping only follows set/del-attr: forget
+            for kk in [kk for kk in list(self.aset) + list(self.adel) if is_pre(op[2], kk[0])]:
+                self.aset.pop(kk, None)
+                self.adel.pop(kk, None)
         if k in ("sattr", "dattr"):
             if op[1] in before and before[op[1]] != "G" and self.made.get(op[1], c) < c:
                 self.tags.add("attr-on-dataset-of-older-container")
@@ -349,6 +456,9 @@ class _Tags:
             for d in list(self.replaced):
                 if is_pre(src, d):
                     del self.replaced[d]
+            for kk in [kk for kk in list(self.aset) + list(self.adel) if is_pre(src, kk[0])]:
+                self.aset.pop(kk, None)
+                self.adel.pop(kk, None)
             self.deleted[src] = c
 
 
@@ -451,12 +561,12 @@ def op_line(op):
     k = op[0]
     if k == "patch":
         return "patch"
-    if k == "set":
-        return "set %s %s" % (hx(op[1]), op[2])
+    if k in ("set", "setbad"):
+        return "%s %s %s" % (k, hx(op[1]), op[2])
     if k in ("grp", "del"):
         return "%s %s" % (k, hx(op[1]))
-    if k == "sattr":
-        return "sattr %s %s %s" % (hx(op[1]), hx(op[2]), op[3])
+    if k in ("sattr", "sattrbad"):
+        return "%s %s %s %s" % (k, hx(op[1]), hx(op[2]), op[3])
     if k == "dattr":
         return "dattr %s %s" % (hx(op[1]), hx(op[2]))
     if k in ("copy", "move"):
@@ -569,8 +679,27 @@ def rand_path(rng, maxd=4, exotic=0.04):
     return "/" + "/".join(segs)
 
 
+def rand_refused(rng, sim, maxd=4):
+    """set-dataset / set-attr with a value that h5py refuses, at an existing node, below one (below a dataset, or a new
+    name in a group), or at any path (never existed, deleted earlier, missing parents)"""
+    ex = [p for p in sim.t if p != "/"]
+    if rng.random() < 0.6:
+        r = rng.random()
+        if r < 0.3 and ex:
+            p = rng.choice(ex)
+        elif r < 0.5 and ex:
+            p = rng.choice(ex) + "/" + "/".join(rng.choice(L2) for _ in range(rng.choice([1, 1, 2])))
+        else:
+            p = rand_path(rng, maxd)
+        return ["setbad", p, rng.choice(BAD_DS)] + (["rel"] if rng.random() < 0.25 else [])
+    p = rng.choice(ex + ["/"]) if rng.random() < 0.85 else rand_path(rng, maxd)
+    return ["sattrbad", p, rng.choice(AKEYS), rng.choice(BAD_ATTR)]
+
+
 def rand_op(rng, sim, maxd=4):
     """one operation, mostly valid w.r.t. the simulated tree"""
+    if rng.random() < 0.05:
+        return rand_refused(rng, sim, maxd)
     r = rng.random()
     ex = [p for p in sim.t if p != "/"]
     rel = ["rel"] if rng.random() < 0.25 else []
@@ -611,8 +740,20 @@ def template(rng):
         P += "/" + rng.choice(L2)
     v = lambda: rand_val(rng)  # noqa: E731
     k = rng.choice(AKEYS)
-    t = rng.randrange(11)
+    t = rng.randrange(14)
     B = ["patch"]
+    bd = lambda: rng.choice(BAD_DS)  # noqa: E731
+    if t == 11:  # refused value at a name deleted in this / in an older patch (the deletion must stay), then the name is used again
+        return [rng.choice([["set", P, v()], ["set", P + "/x", v()], ["grp", P]]), B, ["del", P]] + ([B] if rng.random() < 0.4 else []) + [
+            ["setbad", P, bd()]] + ([B] if rng.random() < 0.3 else []) + [rng.choice([["set", P, v()], ["grp", P], ["set", P + "/a", v()], ["setbad", P + "/a/y", bd()]])]
+    if t == 12:  # refused value below missing parents (no group may stay behind), also below a deleted name; then a dataset where the group would be
+        pre = rng.choice([[], [["set", P + "/x", v()], B, ["del", P]], [["grp", P], B], [["set", P + "/a/y", v()], B, ["del", P + "/a"]]])
+        return pre + [["setbad", P + "/a/y", bd()], rng.choice([["set", P + "/a", v()], ["set", P, v()], B]), ["setbad", P + "/a/y", bd()]]
+    if t == 13:  # refused attribute value on an attribute deleted / overwritten / stored in an older container
+        node = rng.choice([["grp", P], ["set", P, v()]])
+        mid = rng.choice([[["dattr", P, k]], [["sattr", P, k, v()]], [], [["dattr", P, k], B], [["sattr", P, k, v()], ["dattr", P, k]]])
+        return [node, ["sattr", P, k, v()], B] + mid + [["sattrbad", P, k, rng.choice(BAD_ATTR)]] + ([B] if rng.random() < 0.3 else []) + [
+            rng.choice([["sattr", P, "m", v()], ["sattr", P, k, v()], ["dattr", P, k], ["sattrbad", P, "m", rng.choice(BAD_ATTR)]])]
     if t == 0:  # replace-then-touch across three containers
         return [["set", P + "/x", v()], B, ["del", P], ["grp", P], ["set", P + "/y", v()], B, rng.choice([["set", P + "/a", v()], ["sattr", P, k, v()], ["grp", P + "/b/a"], ["del", P + "/y"]])]
     if t == 1:  # dataset replaced by a group, then touched
@@ -705,6 +846,65 @@ def gen_focus(rng):
                 ops.append(["patch"])
             else:
                 ops.append(["sattr", rng.choice(Q), "k", v()])
+    while sum(1 for o in ops if o[0] == "patch") > 6:
+        ops.remove(["patch"])
+    return ops
+
+
+def gen_refused(rng):
+    """dense history on ONE name (with two levels below it) and ONE attribute key in which every third operation or so
+    carries a value that h5py refuses: the target is, in every order the few operations allow, a path that never
+    existed / exists in the newest container / exists in older containers only / was deleted in this patch / was
+    deleted in an older patch / lies below missing parents / lies below a dataset / lies below a deleted name (and the
+    same for the attribute: never set, set here, set in an older container, overwritten here, deleted here / earlier,
+    node missing). Often the next operation uses the same name with an accepted value, so that anything a refused call
+    left behind (a group, a lifted deletion, a temporary node) is noticed at once, before and after a boundary."""
+    P = "/" + rng.choice(L1) + ("/" + rng.choice(L2) if rng.random() < 0.25 else "")
+    v = lambda: rand_val(rng)  # noqa: E731
+    Q = [P, P, P + "/x", P + "/x/y"]
+    far = [P + "/b", P + "/x/n/y", P + "/n/m"]
+    k = rng.choice(AKEYS)
+    ops = []
+    r = rng.random()
+    if r < 0.4:
+        ops.append(rng.choice([["set", P, v()], ["set", P + "/x", v()], ["set", P + "/x/y", v()], ["grp", P]]))
+        if rng.random() < 0.5:
+            ops.append(["sattr", P, k, v()])
+        if rng.random() < 0.6:
+            ops.append(["patch"])
+    elif r < 0.65:  # the name (or the level below it) has been deleted, in this patch or in an older one
+        d = rng.choice([P, P, P + "/x"])
+        ops += [rng.choice([["set", d, v()], ["set", d + "/y", v()], ["grp", d]]), ["patch"], ["del", d]] + ([["patch"]] if rng.random() < 0.45 else [])
+        if rng.random() < 0.7:
+            ops.append(["setbad", rng.choice([d, d, d + "/y", d + "/n/y"]), rng.choice(BAD_DS)])
+    elif r < 0.85:  # the attribute has been deleted / overwritten, in this patch or in an older one
+        ops += [rng.choice([["grp", P], ["set", P, v()]]), ["sattr", P, k, v()], ["patch"], rng.choice([["dattr", P, k], ["sattr", P, k, v()]])] + ([["patch"]] if rng.random() < 0.45 else [])
+        if rng.random() < 0.7:
+            ops.append(["sattrbad", P, k, rng.choice(BAD_ATTR)])
+    for _ in range(rng.randrange(4, 13)):
+        r = rng.random()
+        if r < 0.22:
+            p = rng.choice(Q + far)
+            ops.append(["setbad", p, rng.choice(BAD_DS)] + (["rel"] if rng.random() < 0.2 else []))
+            if rng.random() < 0.5:
+                ops.append(rng.choice([["set", p, v()], ["grp", p], ["set", parent(p) if parent(p) != "/" else p, v()], ["patch"], ["del", P]]))
+        elif r < 0.32:
+            tgt = rng.choice([P, P, P + "/x", "/"])
+            ops.append(["sattrbad", tgt, k, rng.choice(BAD_ATTR)])
+            if rng.random() < 0.5:
+                ops.append(rng.choice([["sattr", tgt, k, v()], ["dattr", tgt, k], ["patch"]]))
+        elif r < 0.46:
+            ops.append(["set", rng.choice(Q + far[:1]), v()])
+        elif r < 0.52:
+            ops.append(["grp", rng.choice(Q)])
+        elif r < 0.68:
+            ops.append(["del", rng.choice(Q[:3])])
+        elif r < 0.84:
+            ops.append(["patch"])
+        elif r < 0.93:
+            ops.append(["sattr", rng.choice([P, P, P + "/x", "/"]), k, v()])
+        else:
+            ops.append(["dattr", rng.choice([P, P, "/"]), k])
     while sum(1 for o in ops if o[0] == "patch") > 6:
         ops.remove(["patch"])
     return ops
@@ -856,6 +1056,24 @@ def enum_small():
             yield [list(o) for o in h]
 
 
+def enum_refused():
+    """refused values in every state a short history can reach: all histories of <= 4 accepted operations on the name /a
+    (dataset, group, child /a/b, one attribute, boundary) followed by ONE refused operation, and all histories of <= 3
+    such operations followed by a refused operation and one accepted operation that uses the name again"""
+    import itertools
+
+    normal = [["patch"], ["set", "/a", "i1"], ["grp", "/a"], ["del", "/a"], ["set", "/a/b", "i1"], ["sattr", "/a", "k", "i2"], ["dattr", "/a", "k"]]
+    bad = [["setbad", "/a", "Bobj"], ["setbad", "/a/b", "Bnul"], ["sattrbad", "/a", "k", "Bnone"]]
+    after = [["set", "/a", "i3"], ["set", "/a/b", "i3"], ["grp", "/a"], ["sattr", "/a", "k", "i3"], ["patch"]]
+    for n in range(5):
+        for h in itertools.product(normal, repeat=n):
+            for b in bad:
+                yield [list(o) for o in h] + [list(b)]
+                if n <= 3:
+                    for a in after:
+                        yield [list(o) for o in h] + [list(b), list(a)]
+
+
 def gen_cases(ctx, quick=None):
     quick = ctx.quick if quick is None else quick
     rng = ctx.rng
@@ -881,6 +1099,9 @@ def gen_cases(ctx, quick=None):
     # copy / move of nodes of the current patch onto / below paths with a past in older containers
     for i in range(130 if quick else 2000):
         cases.append(dict(ops=gen_relocate(rng)))
+    # values that h5py refuses, aimed at paths / attributes in every state
+    for i in range(90 if quick else 2500):
+        cases.append(dict(ops=gen_refused(rng)))
     return cases
 
 
@@ -906,13 +1127,25 @@ def run(ctx):
                 "plus copy / move histories between the current patch and the past (source mostly a node of the current patch, also a group that exists only implicitly as intermediate group of a longer path; "
                 "destination mostly a node stored in older containers only, a path deleted or replaced in an earlier or the current patch, or a path below one; the destination's parent with and without a node in the newest container; follow-up operations on the destination, also after a further boundary). Each history is applied to a real IH5Record and a real h5py.File in lock-step; "
                 "after every step outcome and full dump are compared (oracle) and both are compared with the Lean models (drv_ov). "
+                "Interleaved everywhere (5 % of the random operations, three templates, a dense generator of its own): set-dataset / set-attr with a value that h5py itself refuses "
+                "(object(), dict, set, function, None, ragged / mixed list, object and structured-object arrays, datetime64, '<U' array, 2**70, generator; for datasets also the values refused only while the data are written: string with NUL, lone surrogate) "
+                "at a path / attribute that never existed, exists in the newest container, exists in older containers only, was deleted in this patch or in an older one, lies below missing parents, below a dataset or below a deleted name, "
+                "mostly followed by an accepted operation on the same name: both real sides must fail and both complete dumps must stay unchanged (a refused call has no effect). "
                 "Non-trivial = tagged: replace-then-touch across >=3 containers, delete-then-create-below, attrs on nodes of older containers, "
-                "copy into own subtree, copy/move with missing destination parents, copy/move of a node of the current patch to a path deleted in an older container / onto a node of an older container (refused), >=3 containers, failing operations per kind.")
+                "copy into own subtree, copy/move with missing destination parents, copy/move of a node of the current patch to a path deleted in an older container / onto a node of an older container (refused), >=3 containers, failing operations per kind, "
+                "refused values per state of the target (tags refused-value:*) and per refusal stage (refused-class:*).")
     ctx.assumptions += [
         "h5py/HDF5 implements the flat tree semantics of Model/Tree.Spec (checked on every step: the plain h5py.File is one side of the lock-step and is compared with the Spec model)",
         "moving a node into its own subtree or onto itself is outside the operation alphabet (HDF5 detaches the subtree; h5py returns silently for source == dest)",
         "the key '.' is excluded (HDF5 reads it as the current group)",
         "node handles are not kept across operations (stale handles and dataset slicing are outside the property)",
+        "a value that the raw driver h5py refuses is no element of the models' value type V (Op V has no constructor for such a call); by the property's reference (the tree that results from the SUCCESSFUL operations) "
+        "the call is an error without effect, whatever the state of the path: the driver lines setbad / sattrbad answer 'err err' and keep both model states without going through W.step / Spec.step "
+        "(lean/Drv/Ov.lean); that the real plain h5py.File refuses the value and keeps its tree is checked on every such step (it is one side of the lock-step and is compared with the unchanged Spec tree), "
+        "that the real IH5Record does is what the oracle checks - no theorem speaks about refused values",
+        "attribute values that h5py refuses only while the data are written (str with an embedded NUL, lone surrogate) are excluded from set-attr: AttributeManager.create of h5py 3.x deletes an existing attribute "
+        "of that name before it writes, so the plain h5py.File loses the attribute on such a failed call and gives no reference behaviour (IH5 does the same inside the newest container only: "
+        "a deletion marker or an overwriting value there is lost and the state of the older containers shows through); for datasets these values ARE generated (group[name] = v goes through an anonymous dataset and keeps nothing)",
     ]
     corpus = [] if os.environ.get("C01_NO_CORPUS") else core.load_corpus(ID)  # (switch used to test the generators alone)
     if corpus:
@@ -925,11 +1158,16 @@ def run(ctx):
         small = [dict(ops=h) for h in enum_small()]
         cases += small
         ctx.exhaustive_spaces.append("all %d histories of length <= 3 over the 6 paths of depth <= 2 on keys {a,b} with set/create-group/delete/set-attr/del-attr (one key, also on the root) and boundary" % len(small))
+        refused = [dict(ops=h) for h in enum_refused()]
+        cases += refused
+        ctx.exhaustive_spaces.append("all %d histories made of <= 4 accepted operations on the name /a (set /a, create-group /a, delete /a, set /a/b, set-attr / del-attr k on /a, boundary) followed by one refused "
+                                     "operation (set /a := object(), set /a/b := string with NUL, set-attr k := None), and of <= 3 such operations, a refused one and one accepted operation on the same name" % len(refused))
     # a first small batch made of the named shapes only, then the rest in chunks; stop at the first
     # chunk with oracle hits (the verdict is a VIOLATION anyway and hanging operations are costly)
     smoke = [dict(ops=[list(o) for o in template(ctx.rng)] + [["patch"], ["set", "/c/x/y", "i1"]]) for _ in range(24)]
     smoke += [dict(ops=gen_focus(ctx.rng)) for _ in range(40)]
     smoke += [dict(ops=gen_relocate(ctx.rng)) for _ in range(16)]
+    smoke += [dict(ops=gen_refused(ctx.rng)) for _ in range(24)]
     batches = [smoke] + [cases[i : i + 400] for i in range(0, len(cases), 400)]
     cases = smoke + cases
     for b in batches:
